@@ -237,4 +237,70 @@ theorem drive_single_canon (step : T → Action T V E) (hs : NoSpawn step) (host
           rw [hk2, canon_add, hX]
           exact canon_norm step host k (h, (runN step b r).rt)
 
+/-- the program has run to its end: nothing is queued, or only the failed (and not pending) thread -/
+def Fin (r : Runtime T V E) : Prop :=
+  r.newThreads = [] ∧
+    (r.runQueue = [] ∨ ∃ m, r.runQueue = [m] ∧ m.pending = none ∧ m.err.isSome = true ∧ m.done = false)
+
+theorem Fin.stuck {r : Runtime T V E} (h : Fin r) : Stuck r := by
+  refine ⟨h.1, ?_⟩
+  rcases h.2 with hq | ⟨m, hq, hp, he, hd⟩
+  · simp [hq]
+  · cases hm : m.err with
+    | none => simp [hm] at he
+    | some e => simp [hq, Thread.canRun, hp, hm, hd]
+
+theorem Fin.norm (host : H → Nat → T → H × T) (h : H) {r : Runtime T V E} (hf : Fin r) :
+    serviceAll host h r = (h, r) := by
+  apply serviceAll_noPending
+  rcases hf.2 with hq | ⟨m, hq, hp, _, _⟩
+  · simp [hq]
+  · simp [hq, hp]
+
+theorem canon_fin (step : T → Action T V E) (host : H → Nat → T → H × T) (j : Nat) (h : H) (r : Runtime T V E)
+    (hf : Fin r) : canon step host j (h, r) = (h, r) := by
+  induction j with
+  | zero => rfl
+  | succ j ih =>
+    simp only [canon, tick, hf.norm host h, runN_stuck step 1 r hf.stuck]
+    exact ih
+
+/-- once the reference embedder has reached the end (up to servicing), further ticks change nothing -/
+theorem canon_past_fin (step : T → Action T V E) (host : H → Nat → T → H × T) (j : Nat) (y : H × Runtime T V E)
+    (hf : Fin (serviceAll host y.1 y.2).2) :
+    serviceAll host (canon step host j y).1 (canon step host j y).2 = serviceAll host y.1 y.2 := by
+  cases j with
+  | zero => rfl
+  | succ j =>
+    have ht : tick step host y = serviceAll host y.1 y.2 := by
+      simp only [tick, runN_stuck step 1 _ hf.stuck]
+    simp only [canon, ht]
+    have := canon_fin step host j (serviceAll host y.1 y.2).1 (serviceAll host y.1 y.2).2 hf
+    rw [show ((serviceAll host y.1 y.2).1, (serviceAll host y.1 y.2).2) = serviceAll host y.1 y.2 from rfl] at this
+    rw [this]
+    exact serviceAll_idem host y.1 y.2
+
+/-- two schedules that both ran a task-free program to its end reach the same host state and runtime -/
+theorem drive_single_finished (step : T → Action T V E) (hs : NoSpawn step) (host : H → Nat → T → H × T)
+    (s₁ s₂ : List (Nat × Bool)) (h : H) (r : Runtime T V E) (hr : Single r)
+    (hf₁ : Fin (drive step host s₁ h r 0).2.1) (hf₂ : Fin (drive step host s₂ h r 0).2.1) :
+    ((drive step host s₁ h r 0).1, (drive step host s₁ h r 0).2.1) =
+    ((drive step host s₂ h r 0).1, (drive step host s₂ h r 0).2.1) := by
+  obtain ⟨k₁, _, e1⟩ := drive_single_canon step hs host s₁ h r 0 hr
+  obtain ⟨k₂, _, e2⟩ := drive_single_canon step hs host s₂ h r 0 hr
+  rw [hf₁.norm host] at e1
+  rw [hf₂.norm host] at e2
+  -- the later of the two reference runs has gone past the end of the earlier one
+  have key : ∀ (ka kb : Nat) (A B : H × Runtime T V E), ka ≤ kb →
+      A = serviceAll host (canon step host ka (h, r)).1 (canon step host ka (h, r)).2 →
+      B = serviceAll host (canon step host kb (h, r)).1 (canon step host kb (h, r)).2 →
+      Fin A.2 → A = B := by
+    intro ka kb A B hle hA hB hfin
+    obtain ⟨j, rfl⟩ : ∃ j, kb = ka + j := ⟨kb - ka, by omega⟩
+    rw [canon_add] at hB
+    rw [hB, canon_past_fin step host j _ (by rw [← hA]; exact hfin), ← hA]
+  rcases Nat.le_total k₁ k₂ with hle | hle
+  · exact key k₁ k₂ _ _ hle e1 e2 hf₁
+  · exact (key k₂ k₁ _ _ hle e2 e1 hf₂).symm
+
 end Abra.Sched
